@@ -4,5 +4,5 @@ From FB Require Import Sem.Base Model.Fb GenEq.Tac.
 From FB Require Gen.FbGen.
 Open Scope Z_scope.
 
-Lemma gen_eq : forall SIZE m, FbGen.filled SIZE m = Fb.filled SIZE m.
+Lemma gen_eq : forall SIZE chk m, FbGen.filled SIZE chk m = Fb.filled SIZE m.
 Proof. gen_eq. Qed.
